@@ -79,8 +79,14 @@ class PairIter:
         while SX.is_node(e) and e['k'] == 'cast':
             e = e['e']
         k = e['k']
+        if k in ('bool', 'int'):
+            return bool(e['v'])
         if k == 'un' and e['op'] == '!':
             return not self.cond(e['e'])
+        if k == 'bin' and e['op'] == '|':
+            l, r = SX.strip(e['l']), SX.strip(e['r'])
+            if (self._is_bit(r) and self._is_loopvar(l)) or (self._is_bit(l) and self._is_loopvar(r)):
+                return True     # i | 2^q is never zero
         if k == 'bin' and e['op'] == '&&':
             return self.cond(e['l']) and self.cond(e['r'])
         if k == 'bin' and e['op'] == '||':
@@ -214,11 +220,20 @@ class PairIter:
                 self.cells[c] = sp.expand(cur * rhs)
             elif op == '/=':
                 self.cells[c] = cur / rhs
+            elif op == '+=':
+                self.cells[c] = sp.expand(cur + rhs)
+            elif op == '-=':
+                self.cells[c] = sp.expand(cur - rhs)
             else:
                 raise NotPairwise('amplitude update ' + op)
             return
-        if l['k'] == 'ref' and op in ('+=',):
-            self.acc[l['id']] = self.acc.get(l['id'], 0) + self.amp_expr(w[1])
+        if l['k'] == 'ref' and op in ('+=', '-='):
+            x = self.amp_expr(w[1])
+            self.acc[l['id']] = self.acc.get(l['id'], 0) + (x if op == '+=' else -x)
+            return
+        if l['k'] == 'ref' and op in ('=', '*=', '/=') and l.get('id') not in self.local_idx:
+            # the accumulator is overwritten instead of added to: not a sum over the sweep
+            self.acc[l['id']] = sp.Symbol('OVERWRITTEN_' + l.get('name', 'acc'))
             return
         raise NotPairwise('write to ' + SX.show(l)[:40])
 
